@@ -654,7 +654,12 @@ impl Subject for TableSubj {
                     cx.probe("fault.refusal.constructor");
                     return Applied { refused: true, refusal_expected: true };
                 }
-                return Applied { refused: true, refusal_expected: false };
+                // An entry with in-domain parameters could not even be built. Only C03 quantifies over
+                // "all entry parameters that fit the entry's length field"; the table was not touched,
+                // so for the other properties this is simply an operation that did not take place.
+                cx.probe("unexpected_refusal.constructor");
+                cx.fail(P03, "entry_constructible", format!("{}: constructing an entry with in-domain parameters was refused [{}]", self.subject.name(), op.brief()));
+                return Applied { refused: true, refusal_expected: true };
             }
         };
         let bytes = match standalone_bytes(&be) {
